@@ -50,10 +50,22 @@ def gen_cases(rng, tier):
         t = float(Fraction(t).limit_denominator(1 << 12))
         if t == 0.0:
             t = 1.0 / 4096
+        tiny = (k % 6 == 5)
+        if tiny:
+            # tiny time steps ("from tiny ..."): -i t H has entries far below every absolute tolerance a kernel might use to
+            # decide that a tensor vanishes; dyadic, so the exact oracle stays cheap; two-tensor Hamiltonians preferred
+            t = rng.choice([2.0 ** -30, -2.0 ** -27, 2.0 ** -34, 2.0 ** -24])
+            if cls in ('restricted', 'sso') and rank == 1 and rng.random() < 0.8:
+                rank = 2
+                ham = c01.gen_ham(rng, cls, rank, norb, 'sparse', rng.random() < 0.5, True)
+                if cls == 'sso':
+                    ham['entries'] = c01.pair_symmetrise(c01._sso_filter(ham['entries'], norb))
+                ham['e0'] = rng.choice([[0, 0], [1, 0]])
+                L1 = c02.l1_norm(ham, norb) + abs(ham['e0'][0])
         cases.append({'kind': 'prop', 'norb': norb, 'mode': 'ns', 'n': nn, 'sz': sz,
                       'vec': fqeio.random_state(rng, norb, keys, density=0.8, amp=2), 'ham': ham, 't': t, 'L1': L1,
-                      'acc': rng.choice([1e-4, 1e-7, 1e-10, 1e-13, 1e-15]),
-                      'expansion': rng.choice([2, 3, 5, 10, 20, 30, 60]),
+                      'acc': rng.choice([1e-13, 1e-15]) if tiny else rng.choice([1e-4, 1e-7, 1e-10, 1e-13, 1e-15]),
+                      'expansion': rng.choice([5, 10, 30]) if tiny else rng.choice([2, 3, 5, 10, 20, 30, 60]),
                       'algo': rng.choice(['taylor', 'taylor', 'chebyshev']),
                       'bounds': rng.choice(['enclosing', 'enclosing', 'tight']),
                       # the same Hamiltonian OBJECT used before the propagation (measuring the energy, applying it)
